@@ -37,9 +37,9 @@ type H struct { // per-scenario harness state shared by the wrappers
 }
 
 func (h *H) gate(point string) { h.sched.gate(h.sched.me(), point) }
-func (h *H) sdkUse(kind, id string) {
+func (h *H) sdkUse(kind, id, sdk string) {
 	if id != "" {
-		h.emit(map[string]any{"ev": "SdkUse", "kind": kind, "id": id, "inst": instOfID(id)})
+		h.emit(map[string]any{"ev": "SdkUse", "kind": kind, "id": id, "inst": sdk + "/" + instOfID(id), "sdk": sdk})
 	}
 }
 
@@ -59,22 +59,24 @@ type wMP struct {
 	membedded.MeterProvider
 	real *sdkmetric.MeterProvider
 	h    *H
+	id   string // "r1" | "r2": which of the two real SDKs
 }
 
 func (w *wMP) Meter(name string, opts ...metric.MeterOption) metric.Meter {
 	w.h.gate("sdk.Meter:" + name)
-	w.h.emit(map[string]any{"ev": "SdkObj", "what": "meter", "obj": name})
-	return &wMeter{Meter: w.real.Meter(name, opts...), h: w.h}
+	w.h.emit(map[string]any{"ev": "SdkObj", "what": "meter", "obj": name, "sdk": w.id})
+	return &wMeter{Meter: w.real.Meter(name, opts...), h: w.h, id: w.id}
 }
 
 type wMeter struct {
 	metric.Meter
-	h *H
+	h  *H
+	id string
 }
 
 func (m *wMeter) inst(name string) {
 	m.h.gate("sdk.Inst:" + name)
-	m.h.emit(map[string]any{"ev": "SdkObj", "what": "inst", "obj": name})
+	m.h.emit(map[string]any{"ev": "SdkObj", "what": "inst", "obj": name, "sdk": m.id})
 }
 func (m *wMeter) remember(o any, name string, err error) {
 	if err == nil {
@@ -87,122 +89,130 @@ func (m *wMeter) remember(o any, name string, err error) {
 type wI64C struct {
 	metric.Int64Counter
 	h *H
+	s string
 }
 
 func (w wI64C) Add(ctx context.Context, v int64, o ...metric.AddOption) {
-	w.h.sdkUse("mp", idOf(ctx))
+	w.h.sdkUse("mp", idOf(ctx), w.s)
 	w.Int64Counter.Add(ctx, v, o...)
 }
 
 type wI64U struct {
 	metric.Int64UpDownCounter
 	h *H
+	s string
 }
 
 func (w wI64U) Add(ctx context.Context, v int64, o ...metric.AddOption) {
-	w.h.sdkUse("mp", idOf(ctx))
+	w.h.sdkUse("mp", idOf(ctx), w.s)
 	w.Int64UpDownCounter.Add(ctx, v, o...)
 }
 
 type wI64H struct {
 	metric.Int64Histogram
 	h *H
+	s string
 }
 
 func (w wI64H) Record(ctx context.Context, v int64, o ...metric.RecordOption) {
-	w.h.sdkUse("mp", idOf(ctx))
+	w.h.sdkUse("mp", idOf(ctx), w.s)
 	w.Int64Histogram.Record(ctx, v, o...)
 }
 
 type wI64G struct {
 	metric.Int64Gauge
 	h *H
+	s string
 }
 
 func (w wI64G) Record(ctx context.Context, v int64, o ...metric.RecordOption) {
-	w.h.sdkUse("mp", idOf(ctx))
+	w.h.sdkUse("mp", idOf(ctx), w.s)
 	w.Int64Gauge.Record(ctx, v, o...)
 }
 
 type wF64C struct {
 	metric.Float64Counter
 	h *H
+	s string
 }
 
 func (w wF64C) Add(ctx context.Context, v float64, o ...metric.AddOption) {
-	w.h.sdkUse("mp", idOf(ctx))
+	w.h.sdkUse("mp", idOf(ctx), w.s)
 	w.Float64Counter.Add(ctx, v, o...)
 }
 
 type wF64U struct {
 	metric.Float64UpDownCounter
 	h *H
+	s string
 }
 
 func (w wF64U) Add(ctx context.Context, v float64, o ...metric.AddOption) {
-	w.h.sdkUse("mp", idOf(ctx))
+	w.h.sdkUse("mp", idOf(ctx), w.s)
 	w.Float64UpDownCounter.Add(ctx, v, o...)
 }
 
 type wF64H struct {
 	metric.Float64Histogram
 	h *H
+	s string
 }
 
 func (w wF64H) Record(ctx context.Context, v float64, o ...metric.RecordOption) {
-	w.h.sdkUse("mp", idOf(ctx))
+	w.h.sdkUse("mp", idOf(ctx), w.s)
 	w.Float64Histogram.Record(ctx, v, o...)
 }
 
 type wF64G struct {
 	metric.Float64Gauge
 	h *H
+	s string
 }
 
 func (w wF64G) Record(ctx context.Context, v float64, o ...metric.RecordOption) {
-	w.h.sdkUse("mp", idOf(ctx))
+	w.h.sdkUse("mp", idOf(ctx), w.s)
 	w.Float64Gauge.Record(ctx, v, o...)
 }
 
 func (m *wMeter) Int64Counter(n string, o ...metric.Int64CounterOption) (metric.Int64Counter, error) {
 	m.inst(n)
 	r, err := m.Meter.Int64Counter(n, o...)
-	return wI64C{r, m.h}, err
+	return wI64C{r, m.h, m.id}, err
 }
 func (m *wMeter) Int64UpDownCounter(n string, o ...metric.Int64UpDownCounterOption) (metric.Int64UpDownCounter, error) {
 	m.inst(n)
 	r, err := m.Meter.Int64UpDownCounter(n, o...)
-	return wI64U{r, m.h}, err
+	return wI64U{r, m.h, m.id}, err
 }
 func (m *wMeter) Int64Histogram(n string, o ...metric.Int64HistogramOption) (metric.Int64Histogram, error) {
 	m.inst(n)
 	r, err := m.Meter.Int64Histogram(n, o...)
-	return wI64H{r, m.h}, err
+	return wI64H{r, m.h, m.id}, err
 }
 func (m *wMeter) Int64Gauge(n string, o ...metric.Int64GaugeOption) (metric.Int64Gauge, error) {
 	m.inst(n)
 	r, err := m.Meter.Int64Gauge(n, o...)
-	return wI64G{r, m.h}, err
+	return wI64G{r, m.h, m.id}, err
 }
 func (m *wMeter) Float64Counter(n string, o ...metric.Float64CounterOption) (metric.Float64Counter, error) {
 	m.inst(n)
 	r, err := m.Meter.Float64Counter(n, o...)
-	return wF64C{r, m.h}, err
+	return wF64C{r, m.h, m.id}, err
 }
 func (m *wMeter) Float64UpDownCounter(n string, o ...metric.Float64UpDownCounterOption) (metric.Float64UpDownCounter, error) {
 	m.inst(n)
 	r, err := m.Meter.Float64UpDownCounter(n, o...)
-	return wF64U{r, m.h}, err
+	return wF64U{r, m.h, m.id}, err
 }
 func (m *wMeter) Float64Histogram(n string, o ...metric.Float64HistogramOption) (metric.Float64Histogram, error) {
 	m.inst(n)
 	r, err := m.Meter.Float64Histogram(n, o...)
-	return wF64H{r, m.h}, err
+	return wF64H{r, m.h, m.id}, err
 }
 func (m *wMeter) Float64Gauge(n string, o ...metric.Float64GaugeOption) (metric.Float64Gauge, error) {
 	m.inst(n)
 	r, err := m.Meter.Float64Gauge(n, o...)
-	return wF64G{r, m.h}, err
+	return wF64G{r, m.h, m.id}, err
 }
 
 // observable instruments are handed out unwrapped (the SDK's RegisterCallback insists on its own
@@ -260,7 +270,7 @@ func (m *wMeter) RegisterCallback(f metric.Callback, insts ...metric.Observable)
 	}
 	m.h.mu.Unlock()
 	m.h.gate("sdk.Register:" + cb)
-	m.h.emit(map[string]any{"ev": "SdkCbRegistered", "cb": cb})
+	m.h.emit(map[string]any{"ev": "SdkCbRegistered", "cb": cb, "sdk": m.id})
 	reg, err := m.Meter.RegisterCallback(f, insts...)
 	if err != nil {
 		m.h.emit(map[string]any{"ev": "SdkCbRegisterFailed", "cb": cb, "err": err.Error()})
@@ -287,21 +297,23 @@ type wTP struct {
 	tembedded.TracerProvider
 	real *sdktrace.TracerProvider
 	h    *H
+	id   string
 }
 
 func (w *wTP) Tracer(name string, o ...trace.TracerOption) trace.Tracer {
 	w.h.gate("sdk.Tracer:" + name)
-	w.h.emit(map[string]any{"ev": "SdkObj", "what": "tracer", "obj": name})
-	return &wTracer{Tracer: w.real.Tracer(name, o...), h: w.h}
+	w.h.emit(map[string]any{"ev": "SdkObj", "what": "tracer", "obj": name, "sdk": w.id})
+	return &wTracer{Tracer: w.real.Tracer(name, o...), h: w.h, id: w.id}
 }
 
 type wTracer struct {
 	trace.Tracer
-	h *H
+	h  *H
+	id string
 }
 
 func (t *wTracer) Start(ctx context.Context, name string, o ...trace.SpanStartOption) (context.Context, trace.Span) {
-	t.h.sdkUse("tp", idOf(ctx))
+	t.h.sdkUse("tp", idOf(ctx), t.id)
 	return t.Tracer.Start(ctx, name, o...)
 }
 
@@ -316,10 +328,29 @@ func (p wProp) Extract(ctx context.Context, c propagation.TextMapCarrier) contex
 }
 func (p wProp) Fields() []string { return nil }
 
-type wEH struct{ h *H }
+type wEH struct {
+	h  *H
+	id string
+}
 
 func (e wEH) Handle(err error) {
 	if err != nil && strings.HasPrefix(err.Error(), "xid=") {
-		e.h.sdkUse("eh", err.Error()[len("xid="):])
+		e.h.sdkUse("eh", err.Error()[len("xid="):], e.id)
 	}
+}
+
+// valName names a provider / propagator / handler as the contract sees it: one of the two real SDKs, or
+// "dflt" = the default delegating object of internal/global.
+func valName(x any) string {
+	switch v := x.(type) {
+	case *wMP:
+		return v.id
+	case *wTP:
+		return v.id
+	case wProp:
+		return v.id
+	case wEH:
+		return v.id
+	}
+	return "dflt"
 }
